@@ -143,6 +143,49 @@ func c20MQ(c *eng.Ctx) {
 		}
 	}
 	c.Subspace("mq-long", c.Evals()-before, false, "19 contexts round-robin, 10^3 and 10^5 symbols, bit bias 0/1/50/99/100 % (deterministic LCG)")
+	// deep-state seeds and their neighbourhoods
+	before = c.Evals()
+	c.Par(len(mqDeepSeeds), func(si int) {
+		sd := mqDeepSeeds[si]
+		base := make([]byte, len(sd.Seq)/2)
+		fmt.Sscanf(sd.Seq, "%x", &base)
+		run := func(seq []byte) {
+			a := mqCase{Start: 0, NCtx: 3, Seq: seq}
+			c.Eval(1)
+			if f := eng.Guard(func() *eng.Fail { return mqRun(a, c) }); f != nil {
+				eng.Recheck(c, "C20.mq", a, mqFn)
+			}
+		}
+		run(base)
+		// every single-decision change (other bit, other context)
+		for i := range base {
+			for alt := byte(0); alt < 6; alt++ {
+				if alt == base[i] {
+					continue
+				}
+				s := append([]byte(nil), base...)
+				s[i] = alt
+				run(s)
+			}
+		}
+		// every truncation and every continuation of up to 4 decisions over 2 contexts
+		for n := 1; n < len(base); n++ {
+			run(append([]byte(nil), base[:n]...))
+		}
+		for l := 1; l <= 4; l++ {
+			cnt := eng.Pow(4, l)
+			idx := make([]int, l)
+			for k := 0; k < cnt; k++ {
+				eng.SeqAt(4, l, k, idx)
+				s := append([]byte(nil), base...)
+				for _, x := range idx {
+					s = append(s, byte(x))
+				}
+				run(s)
+			}
+		}
+	})
+	c.Subspace("mq-deep-state-seeds", c.Evals()-before, true, fmt.Sprintf("%d fixed decision sequences whose codeword contains FF 80..FF 8F before its end (carry into the byte after 0xFF; found offline), each with every single-decision change, every truncation and every continuation of <= 4 decisions", len(mqDeepSeeds)))
 }
 
 // ---- T1 ----
@@ -325,6 +368,36 @@ func c20T1(c *eng.Ctx) {
 		c.Capped("T1 family blocks cut by deadline")
 	}
 	c.Subspace("t1-family-blocks", c.Evals()-before, false, fmt.Sprintf("shapes %v x 8 coefficient families (incl. magnitude 2^24) x 64 styles x orientations", shapes))
+
+	// sparse 16x16 blocks of 9-bit coefficients: long runs of highly skewed decisions, the regime in which the arithmetic
+	// coder produces its rare byte patterns (a carry into the byte after 0xFF: FF 80..8F)
+	before = c.Evals()
+	type sj struct{ p0 int }
+	vals := []int32{300, -171, 25}
+	done = c.Par(256, func(p0 int) {
+		coef := make([]int32, 256)
+		step := 1
+		if c.Quick() {
+			step = 3
+		}
+		for p1 := p0 + 1; p1 < 256; p1 += step {
+			for vi, v0 := range vals {
+				for _, v1 := range vals {
+					for i := range coef {
+						coef[i] = 0
+					}
+					coef[p0], coef[p1] = v0, v1
+					coef[(p0*7+p1*3)%256] += int32(vi) - 1
+					a := t1Case{W: 16, H: 16, Orient: (p0 + p1) % 4, Style: []int{0, 0x08, 0x10, 0x18}[(p0+vi)%4], Coef: append([]int32(nil), coef...)}
+					c.Eval(1)
+					if f := eng.Guard(func() *eng.Fail { return t1Run(a, c) }); f != nil {
+						eng.Recheck(c, "C20.t1", a, t1Fn)
+					}
+				}
+			}
+		}
+	})
+	c.Subspace("t1-sparse-16x16", c.Evals()-before, done && c.Thorough(), "16x16 blocks with two non-zero coefficients from {300,-171,25} (plus one +-1) at every pair of positions (quick: every third second position) x orientation/style rotation over {0, 0x08, 0x10, 0x18}")
 }
 
 // ---- DWT 5/3 ----
